@@ -3352,22 +3352,34 @@ let run_callback oi e =
                            (remove_observer k)
                        | None -> ret ())))))))))
 
-(** val fire :
-    nat -> (agg -> bool) -> (oobj -> bool) -> ent -> bool -> bool mW **)
+(** val fire_loop :
+    (nat -> ent -> unit mW) -> (oobj -> bool) -> ent -> nat list -> bool ->
+    bool mW **)
 
-let fire evt early pred0 e early_out =
+let rec fire_loop cb pred0 e l found =
+  match l with
+  | [] -> ret found
+  | oi :: rest ->
+    bind (getO oi) (fun o ->
+      if pred0 o
+      then bind (cb oi e) (fun _ -> fire_loop cb pred0 e rest true)
+      else fire_loop cb pred0 e rest found)
+
+(** val fire_with :
+    (nat -> ent -> unit mW) -> nat -> (agg -> bool) -> (oobj -> bool) -> ent
+    -> bool -> bool mW **)
+
+let fire_with cb evt early pred0 e early_out =
   bind get (fun s ->
     if (&&) early_out (early (get_agg s evt))
     then ret false
-    else let rec go l found =
-           match l with
-           | [] -> ret found
-           | oi :: rest ->
-             bind (getO oi) (fun o ->
-               if pred0 o
-               then bind (run_callback oi e) (fun _ -> go rest true)
-               else go rest found)
-         in go (olist s evt) false)
+    else fire_loop cb pred0 e (olist s evt) false)
+
+(** val fire :
+    nat -> (agg -> bool) -> (oobj -> bool) -> ent -> bool -> bool mW **)
+
+let fire =
+  fire_with run_callback
 
 (** val p_with : mask0 -> oobj -> bool **)
 
